@@ -104,7 +104,8 @@ type Gen struct {
 	siteOrd map[string]int
 
 	noRefine    bool
-	frameTags   map[string]bool // loop-head version tags whose lazily declared heaps get the auto frame
+	samples     []string // ghost: values of the random draws made so far (calls to `sampler` callees)
+	frameTags  map[string]bool // loop-head version tags whose lazily declared heaps get the auto frame
 	frameDone   map[string]bool
 	fldK        map[string]int
 	retReach    []string
